@@ -133,3 +133,38 @@ claim('C20',
       'freedom from races inside pandas/numpy/fsspec; atomicity of individual memo stores; copy.copy(handle) shares metadata by design',
       'Trusts engine/sharedstate.py and the classification table in engine/rules/c20.py (each entry has a one-line reason).',
       'DESIGN.md 5/C20')
+
+claim('C06',
+      'attribute need/avail sets per derivation route, value-numbered offset advance, who-reads rule for the footer row count, reaching definitions for in-place mutation of arguments',
+      'a handle obtained by slicing, pickling or copying provides (state dict, _set_attrs on every path, or class '
+      'default) every attribute that methods reachable from the read API load unconditionally; the output offset '
+      'of to_pandas advances by exactly the rows that sized the view slices on every reading path and not on the '
+      'skipping path; __len__/count/info/head/allocation size derive from rg.num_rows of the selected list and the '
+      'footer-level num_rows is never read on the read side; list arguments are copied before being extended; the '
+      'read API never closes a handle returned by self.open.',
+      'equality of the frames themselves (column subsets, index reconstruction, categorical state across row groups)',
+      'Trusts the resolved call graph for the set of read-side methods and the symbolic walker.',
+      'DESIGN.md 5/C06')
+
+claim('C14',
+      'CFG/branch analysis of the verification path, sibling agreement of the two footer-gathering arms and of constructor call sites, reaching definitions for order provenance',
+      'a verification request always selects the legacy arm, which compares every file\'s schema with the first and '
+      'raises; both arms re-path every chunk (legacy on private copies) and recount rows over the final list; the '
+      'extension order derives from the caller\'s list, never from the dict returned by fs.cat; every constructor arm '
+      'that gathers many files forwards verify/open_with/root/fs identically, consolidates categories, stores fmd and '
+      'builds the handle; category consolidation is a running maximum against the stored value.',
+      'differing category dictionaries between files; base-path inference from path shapes',
+      'Trusts the CFG and reaching definitions.',
+      'DESIGN.md 5/C14')
+
+claim('C17',
+      'who-may-call and def-use single-source-of-truth for dtype prediction, enumerated allocator deviations, sibling row-count rules',
+      'dataframe.empty is called only by _pre_allocate, called only by pre_allocate, whose dtype argument is the '
+      'explicit override or the value returned by self._dtypes(categories) for the same categories argument that '
+      'check_categories receives; self.dtypes is stored only by _dtypes and returned as stored; columns derives '
+      'from it minus the partitions; every deviation of the allocator from the predicted dtype is enumerated (known '
+      'finding K17); counts and default columns come from the same sources the metadata answers use; caller lists '
+      'are not mutated.',
+      'that pandas realises the predicted dtype; the schema x pandas-metadata x statistics logic inside _dtypes',
+      'K17 is a maintainer decision (report vs allocation), recorded not repaired.',
+      'DESIGN.md 5/C17')
